@@ -261,6 +261,9 @@ MODELLED = {
 DEPENDS = {
     "C01": ["SerialFrame."],
     "C02": ["SerialFrame.", "ParseRecv.recv_handle", "ParseRecv._recv_cb"],
+    "C04": ["Parser.frame_stream_decode", "Parser._stream_data_get", "msfmt_get", "dsfmt_get"],
+    "C15": ["ParseRecv._stream", "ParseRecv.frame_stream_encode", "Parser.frame_stream_decode", "Parser._stream_data_get",
+            "msfmt_get", "dsfmt_get", "SerialFrame."],
     "C05": ["Parser.", "ParseRecv.frame_", "ParseRecv.recv_handle", "ParseRecv._recv_cb", "SerialFrame."],
     "C06": ["ParseRecv._cmninfo", "ParseRecv._chinfo", "ParseRecv.frame_cmninfo_encode", "ParseRecv.frame_chinfo_encode",
             "ParseRecv.frame_ack_encode", "Parser.frame_cmninfo_decode", "Parser.frame_chinfo_decode",
